@@ -23,6 +23,8 @@ VALUES = {
     "other-alias": ["vp_b -o", "vp_c"],       # vp_b / vp_c are alias names too (and helpers): expanded once
     "self": None,                              # NAME='NAME -z' for NAME in vp_b, vp_c
     "equals": ["vp_argv k=v"],
+    # a value with a redirection of its own (the definition is one word with the operator inside its quotes)
+    "redirection": ["vp_argv a > af1", "vp_a -x 2> af2", "vp_argv b >> af1", "vp_a 2>/dev/null"],
     # values without a blank that still have to be read as shell text: a pipeline, a quoted command word
     "no-blank-pipe": ["vp_a|vp_b", "vp_a p|vp_b"],
     "quoted-command-word": ['"vp_argv"', "'vp_a'", '"vp_a" -q'],
@@ -52,7 +54,20 @@ def value_argvs(value, extra):
             cur.append(tok)
     cur += extra
     stages.append(cur)
-    return [(st[0], st[1:]) for st in stages]
+    out = []
+    for st in stages:
+        words, skip = [], False
+        for w in st:
+            if skip:
+                skip = False
+            elif w in (">", ">>", "2>", "2>>"):
+                skip = True          # the operator and its target are not arguments
+            elif w.startswith(("2>", ">")) and len(w) > 2:
+                pass                 # attached target
+            else:
+                words.append(w)
+        out.append((words[0], words[1:]))
+    return out
 
 
 def gen_history(rng):
